@@ -224,3 +224,17 @@ Qed.
 (* publishToClient: a message for a connected client that is neither queued nor held is reported *)
 Theorem fate_drop_reported (f : fate) : fate_is_drop f = true -> fate_report f <> None.
 Proof. destruct f; cbn; intros H; try discriminate. Qed.
+
+(* the fault monitor means what it says: accepted and not closed => every reported packet was written *)
+Lemma mem_n_In x l : mem_n x l = true -> In x l.
+Proof.
+  induction l as [|y r IH]; cbn; [discriminate|]. intro H. apply Bool.orb_prop in H as [H|H].
+  - left. symmetry. apply N.eqb_eq. exact H.
+  - right. exact (IH H).
+Qed.
+
+Theorem fault_ok_sound reported written : fault_ok reported written false = true ->
+  forall k, In k reported -> In k written.
+Proof.
+  unfold fault_ok. cbn [orb]. intros H k Hk. rewrite forallb_forall in H. apply mem_n_In. exact (H k Hk).
+Qed.
